@@ -74,7 +74,7 @@ def canon_value(r):
     if isinstance(r, tuple) and hasattr(r, "_fields"):
         return {"shape": "Tuple", "type": type(r).__name__, "fields": [[f, canon_scalar(getattr(r, f))] for f in r._fields]}
     if isinstance(r, list) and r and isinstance(r[0], tuple) and hasattr(r[0], "_fields"):
-        first = sorted(r, key=lambda t: repr(t))[0]
+        first = r[0]
         return {"shape": "ListOf", "type": type(first).__name__,
                 "fields": [[f, canon_scalar(getattr(first, f))] for f in first._fields]}
     if isinstance(r, (list, dict, tuple, set)):
